@@ -1480,6 +1480,9 @@ class Executor:
             return a.t == b.t
         if isinstance(a, PList) and isinstance(b, PList):
             return self.equals(tuple(a.items), tuple(b.items))
+        if getattr(self.ctx, "real_floats", False) and (isinstance(a, SFloat) or isinstance(b, SFloat)) \
+                and all(isinstance(x, (SFloat, int, float)) or is_intlike(x) for x in (a, b)):
+            return self.ctx.float_compare(self, ast.Eq(), a, b, 0)  # floats as reals: equality of values
         if isinstance(a, SFloat) and isinstance(b, SFloat):
             self.notes.add("float == treated as identity of uninterpreted float terms")
             return a.t == b.t
